@@ -4,7 +4,7 @@
 From Coq Require Import Extraction ExtrOcamlBasic ExtrOcamlString.
 From QSX Require Import Base.QSum LP.ILP LP.Cert LP.User LP.OptTest LP.Driver.
 (* one Require line per area may be added below *)
-From QSX Require Import IO.Num.
+From QSX Require Import IO.Num IO.Equiv IO.Bounds.
 
 Extraction Language OCaml.
 Extraction "model.ml"
@@ -14,5 +14,5 @@ Extraction "model.ml"
   opt_test infeas_test wf_logicals
   exact_solver_gen exact_solver
   (* add names below, one line per area *)
-  read_num get_value print_num
+  read_num get_value print_num equiv_by_name row_empty encode_bounds decode_bounds
   .
